@@ -73,8 +73,8 @@ inline std::vector<VMut> value_muts(Cat &C, const std::string &cls, mpz_srcptr v
 	mpz_add(t, v, C.q); add("+q");
 	mpz_add(t, v, C.p); add("+p");
 	mpz_neg(t, v); mpz_mod(t, t, C.p); add("nonmember");
+	mpz_neg(t, v); add("neg");
 	if (full) {
-		mpz_neg(t, v); add("neg");
 		mpz_set_ui(t, 0); add("zero");
 		mpz_set_ui(t, 1); add("one");
 		mpz_sub_ui(t, C.p, 1); add("p-1");
@@ -143,13 +143,14 @@ inline std::vector<LineMut> gen_line_muts(Cat &C, const std::vector<std::string>
 		};
 		std::string lrole;
 		if (structured(l)) {
-			std::vector<Tok> T = split_fields(l); std::string tag = T[0].text; lrole = "struct:" + tag;
+			std::vector<Tok> T = split_fields(l); std::string tag = T[0].text, outer = T[0].text; lrole = "struct:" + tag;
 			for (size_t j = 0; j + 1 < T.size(); j++) {      // the last token is the text after the last delimiter
 				std::string f = T[j].text, role;
 				auto with = [&](const std::string &nf) { std::vector<Tok> T2 = T; T2[j].text = nf; return join_fields(T2); };
 				if (f.empty() && j > 0 && T[j - 1].delim == '|' && T[j].delim == '^') {
+					std::string inner = tag; tag = outer;      // the nested record (crs| crd|) ends here
 					// "crs|r|<here>^": text after the last delimiter of the nested record, ignored by its field parser (equivalent representation)
-					if (full) push((int)j, tag + ".trailer", "append-after-last-delimiter", f, with("x"), false, LineMut::REPL, "text-after-last-delimiter");
+					if (full) push((int)j, inner + ".trailer", "append-after-last-delimiter", f, with("x"), false, LineMut::REPL, "text-after-last-delimiter");
 					continue;
 				}
 				if (is_tag(f) || (f.size() >= 3 && f.compare(0, 2, "ID") == 0 && is_dec(f.substr(2)))) {
@@ -161,7 +162,7 @@ inline std::vector<LineMut> gen_line_muts(Cat &C, const std::vector<std::string>
 					role = tag + ".count"; unsigned long d = strtoul(f.c_str(), 0, 10);
 					push((int)j, role, "+1", f, with(std::to_string(d + 1)), true);
 					if (d > 0) push((int)j, role, "-1", f, with(std::to_string(d - 1)), true);
-					if (full) push((int)j, role, "empty", f, with(""), true);
+					if (full) push((int)j, role, "empty", f, with(""), d != 0, LineMut::REPL, d != 0 ? "" : "empty-decimal-field-reads-as-0");
 					continue;
 				}
 				if (parse62(f, v) && f.find_first_not_of("0123456789ABCDEFGHIJKLMNOPQRSTUVWXYZabcdefghijklmnopqrstuvwxyz-") == std::string::npos && !(tag == "pub" && j <= 3)) {
